@@ -189,53 +189,69 @@ def rule_R5(ctx):
     ctx.begin("R5", floor=3, what="leftmost scan in regexec")
     prog = ctx.prog
     f = prog.func("regexec", file="regex.c")
-    cfg = f.cfg
-    calls = list(f.calls("re_recmatch"))
-    if not calls:
+    if not any(True for _ in f.calls("re_recmatch")):
         raise AnalysisBroken("regexec does not call re_recmatch")
-    c = calls[0]
-    loop = enclosing(f, c["id"], ("while", "for", "do"))
-    if loop is None:
-        ctx.violation("regexec", "scan over start positions", "re_recmatch is not called in a loop")
-        return
-    sname = f.params[1]["name"]
-    adv = [(n, rhs) for n, lv, op, rhs in stores(loop) if lv["k"] == "ref" and lv["name"] == sname]
-    good_adv = [n for n, rhs in adv if n["op"] == "+=" and is_call(strip_casts(rhs), "uc_len") and
-                key(strip_casts(rhs)["args"][0]) == sname]
-    if adv and len(good_adv) == len(adv):
-        ctx.ok("regexec", "start advances by one decoded character", loc=f.loc(adv[0][0]))
+    # abstract evaluation of the scan loop: re_recmatch is replaced by a probe that records the
+    # offset it is asked to start at (and the subject start) and answers as told
+    subjects = [(0x61, 0x62, 0), (0x61, 0xc3, 0xa9, 0x62, 0), (0xe2, 0x82, 0xac, 0x78, 0),
+                (0xf0, 0x9f, 0x98, 0x80, 0x21, 0), (0,)]
+
+    def boundaries(b):
+        out, i = [], 0
+        while b[i]:
+            out.append(i)
+            c = b[i]
+            i += 1 if c < 0xc0 else 2 if c < 0xe0 else 3 if c < 0xf0 else 4
+        return out
+
+    def run(subj, succeed_at):
+        calls = []
+
+        def probe(ip, fn, e, args, env):
+            rs = args[1]
+            calls.append((rs["s"].off if isinstance(rs.get("s"), Ptr) else None,
+                          rs["o"].off if isinstance(rs.get("o"), Ptr) else None))
+            return 0 if len(calls) - 1 == succeed_at else 1
+        ip = Interp(prog, hooks={"re_recmatch": probe, "memset": lambda *a: None})
+        preg = {"__deref__": {"flg": 0, "p": OPAQUE, "n": 0}}
+        try:
+            ret = ip.call(f, [preg, Ptr(subj), 2, OPAQUE, 0])
+        except (Unsupported, OverRead) as e:
+            raise AnalysisBroken("regexec not evaluable: %s" % e)
+        return ret, calls
+    bad = None
+    n_eval = 0
+    for subj in subjects:
+        want = boundaries(subj)
+        ret, calls = run(subj, -1)
+        n_eval += 1
+        starts = [c[0] for c in calls]
+        # a final attempt at the terminator (empty match at the end of the line) is legitimate
+        if starts == want + [len(subj) - 1] and want:
+            want = starts
+        if starts != want:
+            bad = ("start positions", subj, starts, want)
+        elif any(c[1] != 0 for c in calls):
+            bad = ("subject start", subj, [c[1] for c in calls], [0] * len(calls))
+        elif ret in (0, None):
+            bad = ("result without any match", subj, ret, 1)
+        for k in range(len(want)):
+            ret, calls = run(subj, k)
+            n_eval += 1
+            if ret != 0 or len(calls) != k + 1:
+                bad = ("first success returns", subj, (ret, len(calls)), (0, k + 1))
+    show = lambda b: "".join("\\x%02x" % x for x in b[:-1])
+    if bad:
+        what = {"start positions": "match attempts start at byte offsets %s, the characters start at %s",
+                "subject start": "the subject start given to the matcher is %s, expected %s",
+                "result without any match": "regexec returns %s when no attempt succeeds, expected %s",
+                "first success returns": "after the first successful attempt regexec (result, attempts) = %s, expected %s"}[bad[0]]
+        ctx.violation("regexec", "leftmost scan by whole characters",
+                      ("on subject \"%s\" " % show(bad[1])) + what % (bad[2], bad[3]), f.loc(f.body))
     else:
-        ctx.violation("regexec", "start advances by one character",
-                      "the start position is advanced by %s" % [key(n) for n, r in adv], f.loc(loop))
-    # rs.s = the current start before the call; rs.o = the subject start, outside the loop
-    starts = [n for n, lv, op, rhs in stores(loop) if lv["k"] == "member" and lv["field"] == "s"]
-    if starts and all(sname in key(n["r"]) for n in starts) and any(cfg.dominates(n, c) for n in starts):
-        # the start is taken before the advance
-        if all(cfg.dominates(n, a) for n in starts for a in good_adv):
-            ctx.ok("regexec", "match attempted at the position before the advance", loc=f.loc(starts[0]))
-        else:
-            ctx.violation("regexec", "leftmost start", "the position is advanced before the attempt")
-    else:
-        ctx.violation("regexec", "match starts at the scan position", "rs.s is not set from the scan position")
-    ostores = [n for n, lv, op, rhs in stores(f.body) if lv["k"] == "member" and lv["field"] == "o"]
-    in_loop = [n for n, lv, op, rhs in stores(loop) if lv["k"] == "member" and lv["field"] == "o"]
-    if ostores and not in_loop and all(key(strip_casts(n["r"])) == sname for n in ostores):
-        ctx.ok("regexec", "subject start fixed before the scan")
-    else:
-        ctx.violation("regexec", "subject start", "rs.o is not the original subject for the whole scan")
-    from .w import result_test
-    rt = result_test(f, c, "!=0")
-    if rt[0] == "branch":
-        _, bid, k, cond = rt
-        succ = cfg.blocks[bid].succ[1 - k]
-        direct = [x for x in cfg.return_nodes() if cfg.pos(x)[0] == succ and cval(x.get("e")) == 0]
-        if direct:
-            ctx.ok("regexec", "the first successful start position returns the match")
-        else:
-            ctx.violation("regexec", "leftmost match returned",
-                          "a successful re_recmatch does not return immediately")
-    else:
-        ctx.violation("regexec", "leftmost match returned", "re_recmatch result is %s" % rt[0])
+        ctx.ok("regexec", "attempts start at every character boundary from the left, with the subject start fixed")
+        ctx.ok("regexec", "the first successful start position returns the match at once")
+        ctx.ok("regexec", "no attempt succeeds -> failure (%d probe evaluations)" % n_eval)
 
 
 def _expand_class(s):
@@ -386,27 +402,37 @@ def _grps_fill(f, n_name, g_name):
 def rule_L2(ctx):
     ctx.begin("L2", floor=2, what="group out-parameters defined on success")
     prog = ctx.prog
-    # literal branch of rstr_find
+    # literal branch of rstr_find: which slots of grps[] does a successful match define?
     f = prog.func("rstr_find", file="rstr.c")
-    cfg = f.cfg
-    n_name, g_name = f.params[2]["name"], f.params[3]["name"]
-    fills = _grps_fill(f, n_name, g_name)
-    succ = [r for r in cfg.return_nodes() if cval(r.get("e")) is not None and cval(r["e"]) >= 0]
-    if not succ:
-        raise AnalysisBroken("rstr_find: no successful return")
-    for r in succ:
-        whole = [n for n, lv, op, rhs in stores(f.body)
-                 if op == "=" and lv["k"] == "sub" and key(lv["base"]) == g_name and
-                 cval(lv["idx"]) in (0, 1) and cfg.dominates(n, r)]
-        rest = [lp for lp, a in fills if a in (0, 1) and cfg.dominates(lp["c"], r)]
-        full0 = [lp for lp, a in fills if a == 0 and cfg.dominates(lp["c"], r)]
-        if (len({cval(n["l"]["idx"]) for n in whole}) == 2 and rest) or full0:
-            ctx.ok("rstr_find", "literal match stores all 2n group slots", loc=f.loc(r))
-        else:
-            ctx.violation("rstr_find", "literal match defines every group slot",
-                          "the literal branch returns success having stored only %s of grps[]: "
-                          "slots of groups 1..n-1 stay uninitialised (callers read them for \\1..\\9)" % (
-                              sorted({cval(n["l"]["idx"]) for n in whole}) or "nothing"), f.loc(r))
+    rec = prog.record("rstr")
+    bad = None
+    n_eval = 0
+    for lit, line, n, flags in ((b"b", b"abc\n", 3, {}), (b"ab", b"xxab\n", 2, {"wbeg": 0}),
+                                (b"c", b"abc\n", 10, {"lend": 1}), (b"a", b"abc\n", 1, {"lbeg": 1}),
+                                (b"", b"ab cd\n", 4, {"wend": 1})):
+        rs = {fl["name"]: 0 for fl in rec["fields"]}
+        rs["rs"] = None
+        rs["str"] = Ptr(tuple(lit) + (0,))
+        rs.update(flags)
+        grps = {}
+        try:
+            ret = Interp(prog).call(f, [rs, Ptr(tuple(line) + (0,)), n, grps, 0])
+        except (Unsupported, OverRead) as e:
+            raise AnalysisBroken("rstr_find not evaluable: %s" % e)
+        n_eval += 1
+        if ret is None or ret < 0:
+            continue
+        missing = [i_ for i_ in range(2 * n) if not isinstance(grps.get(i_), int)]
+        wrong = [i_ for i_ in range(2, 2 * n) if isinstance(grps.get(i_), int) and grps[i_] != -1]
+        if missing and bad is None:
+            bad = ("after a literal match of \"%s\" with n = %d the slots %s of grps[] are never stored: "
+                   "callers read them for \\1..\\9" % (lit.decode(), n, missing[:6]))
+        elif wrong and bad is None:
+            bad = "groups other than 0 are reported as set: grps%s = %s" % (wrong[:4], [grps[i_] for i_ in wrong[:4]])
+    if bad:
+        ctx.violation("rstr_find", "literal match defines every group slot", bad, f.loc(f.body))
+    else:
+        ctx.ok("rstr_find", "a literal match stores all 2n slots, groups >= 1 as -1 (%d evaluations)" % n_eval)
     g = prog.func("rset_find", file="rset.c")
     n_name, g_name = g.params[2]["name"], g.params[3]["name"]
     fills = [(lp, a) for lp, a in _grps_fill(g, n_name, g_name) if a == 0]
